@@ -40,7 +40,7 @@ def run_driver(ctx, binp, scripts, name, race=False, test="TestVerifTW"):
 
 
 def run(ctx):
-    tier, rng = ctx.tier, ctx.rng
+    tier, rng = ctx.tier, ctx.sub_rng("fam_twriter.1")
     consts = dict(Pool=2, NF=3 if tier == "quick" else 4, MaxRot=1, EarlyReturn=False)
     d = ctx.tlc("design", "ThermalWriter",
                 mkcfg(spec="Spec", constants=consts, invariants=["NoAlias", "Intact", "InOrder", "FlushAtEnd", "PoolConserved"],
@@ -59,12 +59,12 @@ def run(ctx):
     r = ctx.tlc("replay", "TwReplay", mkcfg(init="RInit", next_="RNext", constants=rc),
                 args=["-dump", "dot,actionlabels", "graph"], timeout=900, heap="4g", expect_ok=True)
     inits, nodes, edges = vlib.parse_dot(os.path.join(r["dir"], "graph.dot"), evvar="sc")
-    paths, ne = vlib.transition_cover(inits, nodes, edges, maxlen=80, rng=rng, limit=120 if tier == "quick" else None)
+    paths, ne = vlib.transition_cover(inits, nodes, edges, maxlen=80, rng=ctx.sub_rng("twriter.cover"), limit=120 if tier == "quick" else None)
     scripts = []
     for p in paths:
         sched = [nodes[x] for x in p if nodes.get(x)]
         half_cut = any(s["a"] == "r.eof" for s in sched) and sum(1 for s in sched if s["a"] == "r.fill2") < sum(1 for s in sched if s["a"] == "r.fill1")
-        scripts.append(dict(framesize=rng.choice([10, 64, 5000]), nframes=3, cut_last=half_cut, chunks=[], schedule=sched, mode="gated"))
+        scripts.append(dict(framesize=ctx.sub_rng("twriter.coverfs").choice([10, 64, 5000]), nframes=3, cut_last=half_cut, chunks=[], schedule=sched, mode="gated"))
     ngated = len(scripts)
     # ---- constructed extremes and free-running stress
     scripts.append(dict(framesize=2000, nframes=600, cut_last=False, chunks=[], mode="backlog"))         # 256 in flight, reader blocks, drain
